@@ -29,6 +29,8 @@ META = {
 }
 
 META['explanation'] += ' ' + 'R5: protocol constants, and the LDAP StartTLS request parser compares the request name with the OID its composer writes (class constants resolved). R8: explicit rejections against the reviewed table.'
+
+META['explanation'] += ' ' + 'R11: flag keyed optional parts (shared with C01.R12). R12: flag / timestamp tabulation incl. repeated members.'
 MODULES = {'cryptoparser.tls.mysql', 'cryptoparser.tls.rdp', 'cryptoparser.tls.openvpn', 'cryptoparser.tls.postgresql', 'cryptoparser.tls.ldap'}
 HERE = os.path.dirname(os.path.dirname(os.path.abspath(__file__)))
 
